@@ -3,7 +3,7 @@ harness generator, the trusted-base items specific to the property."""
 
 TRUSTED_COMMON = [
     "Lean 4.33 kernel; axioms allowed: propext, Classical.choice, Quot.sound (audited with #print axioms on every property theorem on every run)",
-    "translate/t2.py (Rust integer-function subset -> lean/Matreex/Gen/Core.lean) and, run from it, t3.py (swap kernels), t4.py (mutable iterators), t5.py (transpose), t6.py (overwrite), t7.py (PartialEq), t8.py (constructors, reshape), t9.py (elementwise operations), t10.py (products), t11.py (checked indexing, element swap, swap dispatch), t12.py (row / column views, element iterators), t13.py (conversions), t14.py (resize, clear, map, apply, scalar operations) -> lean/Matreex/Gen/*.lean, all regenerated from /repo/src on every run; anything outside a translator's statement language is reported as a broken obligation, never guessed",
+    "translate/t2.py (Rust integer-function subset -> lean/Matreex/Gen/Core.lean) and, run from it, t3.py (swap kernels), t4.py (mutable iterators), t5.py (transpose), t6.py (overwrite), t7.py (PartialEq), t8.py (constructors, reshape), t9.py (elementwise operations), t10.py (products), t11.py (checked indexing, element swap, swap dispatch), t12.py (row / column views, element iterators), t13.py (conversions), t14.py (resize, clear, map, apply, scalar operations), t15.py (Display / Debug), t16.py (parallel wrappers), t17.py (order operations, mutable-view entry points, small constructors, named elementwise methods and matrix operators) -> lean/Matreex/Gen/*.lean, all regenerated from /repo/src on every run; anything outside a translator's statement language is reported as a broken obligation, never guessed",
     "harness/ (Rust) and lean/Main.lean + lean/Driver/ (protocol printers on both sides); the Lean compiler/runtime for the driver only",
     "64-bit usize/isize; rustc and std semantics of the primitives named in DESIGN.md section 5 (modelled, validated by correspondence)",
 ]
@@ -28,7 +28,7 @@ PROPS = {
         "assumptions": ["Coh for the matrix indexed (C01)"],
     },
     "C05": {
-        "module": "Matreex.Props.C05", "harness": "C05", "extra_modules": ["Matreex.Props.SpecLaws"],
+        "module": "Matreex.Props.C05", "harness": "C05", "extra_modules": ["Matreex.Props.SpecLaws", "Matreex.Lemmas.BridgeT17"],
         "technique": "Lean 4 proof of the cycle-following in-place permutation for every injective self-map (two loop invariants), instantiated with the regenerated index functions (T2); induction over compositions; correspondence on all shapes up to 12x12",
         "trusted": ["ptr::swap modelled as UB outside the buffer, visited.get_unchecked_mut as UB outside the bitmap (Model/Mem.lean, Model/Transpose.lean)",
                     "Matrix::transpose is regenerated from src/lib.rs (T5) and proved equal to the model function for every matrix, faults included (transpose_is_the_source); the only thing T5 adds to the Rust text is the fuel of the inner loop; switch_order / set_order (three-line wrappers) are hand-modelled and tied by correspondence",
@@ -63,7 +63,7 @@ PROPS["C09"] = {
 }
 
 PROPS["C12"] = {
-    "module": "Matreex.Props.C12", "harness": "C12", "extra_modules": ["Matreex.Props.C12Source"],
+    "module": "Matreex.Props.C12", "harness": "C12", "extra_modules": ["Matreex.Props.C12Source", "Matreex.Lemmas.BridgeT17"],
     "technique": "Lean 4 theorems about the regenerated conformability predicate and the same-order/cross-order data paths (cross-order get_unchecked in bounds via the remap lemma) + T1 tables of the named methods and operator delegation + correspondence with symbolic token terms",
     "trusted": ["the guard and the three generic elementwise operations are regenerated from src/arithmetic.rs (T9) and proved equal to the model functions (elementwise_is_the_source: no hypothesis for the two non-assign variants, coherent operands for the assign variant); the named methods and operators delegate to them (T1 tables)",
                 "iter().zip / enumerate / collect modelled as positionwise maps (T9 maps this iterator vocabulary by name); get_unchecked as UB outside the vector",
@@ -97,7 +97,7 @@ PROPS["C15"] = {
 }
 
 PROPS["C19"] = {
-    "module": "Matreex.Props.C19", "harness": "C19", "extra_modules": ["Matreex.Lemmas.BridgeT13"],
+    "module": "Matreex.Props.C19", "harness": "C19", "extra_modules": ["Matreex.Lemmas.BridgeT13", "Matreex.Lemmas.BridgeT17"],
     "technique": "Lean 4 theorems by induction over the row lists (uniform => rows in order; any deviating row => LengthInconsistent / panic; with_initializer stores f(r,c) at (r,c)) using the regenerated size decision (T2) + macro-arm table (T1) + exhaustive correspondence over ragged inputs with destructor tokens",
     "trusted": ["Vec::extend / extend_from_slice / collect / vec! modelled as list append (vec![v; n]: n-1 clones then the original), FromIterator rows as lists",
                 "translate/t1.py macros: regex extraction of each macro arm's pattern and expansion",
@@ -114,7 +114,7 @@ PROPS["C03"] = {
     "assumptions": ["Coh (C01)"],
 }
 PROPS["C06"] = {
-    "module": "Matreex.Props.C06", "harness": "C06", "extra_modules": ["Matreex.Lemmas.BridgeT12"],
+    "module": "Matreex.Props.C06", "harness": "C06", "extra_modules": ["Matreex.Lemmas.BridgeT12", "Matreex.Lemmas.BridgeT17"],
     "technique": "Lean 4 theorems for skip/step_by/take views (exact items and lengths, step_by(0) unreachable, IndexOutOfBounds exactly for invalid n) and agreement of the view positions with the positions the mutable machines of C03 hand out; correspondence over all families, shapes with a zero dimension, consumption patterns",
     "trusted": ["slice::Iter / IterMut with skip, step_by, take and their DoubleEnded/ExactSize behaviour modelled as list functions (Model/Iter.lean)",
                 "the mutable outer families are the C03 machines"],
@@ -122,13 +122,14 @@ PROPS["C06"] = {
 }
 
 PROPS["C20"] = {
-    "module": "Matreex.Props.C20", "harness": "C20", "post": "fmtcfg",
-    "level_text": "PARTIAL. Machine-checked Lean 4 theorems about a List-Char model of both fmt bodies (no panic for any matrix and any renderings; for single-line renderings the exact text of Display — one bracketed line per logical row, equal widths, order transparency — and of Debug — header of column numbers, row numbers, every element labelled with its position in memory order), tied to the implementation by exhaustive-palette correspondence of the complete output text of Display and Debug. "
+    "module": "Matreex.Props.C20", "harness": "C20", "post": "fmtcfg", "extra_modules": ["Matreex.Lemmas.BridgeT15", "Matreex.Props.C20Source"],
+    "level_text": "PARTIAL. Both fmt bodies, the Lines helpers and the constants of src/fmt.rs are regenerated as Lean functions on every run (T15) and proved equal to the model for every matrix (C20.fmt_is_the_source; the only difference, stated exactly in display_source_full / debug_source_full, is the capacity-overflow panic of the cache allocation Vec::with_capacity(size): KNOWN FINDING F-C20-huge-zst-capacity — formatting a zero-sized-element matrix of >= 2^58 elements panics; machine-checked as fmt_source_panics_on_huge_zst, characterised by fmt_source_panic_iff, replayed on the implementation on every run). Machine-checked Lean 4 theorems about a List-Char model of both fmt bodies (no panic for any matrix and any renderings; for single-line renderings the exact text of Display — one bracketed line per logical row, equal widths, order transparency — and of Debug — header of column numbers, row numbers, every element labelled with its position in memory order), tied to the implementation by exhaustive-palette correspondence of the complete output text of Display and Debug. "
                   "All three feature configurations are executed on every run: the harness links features=full (colour feature compiled in, NO_COLOR set so colours are unsupported), and every formatting operation of the run is recomputed against /repo built with no default features and with the crate's default features (fmtcfg); the three texts must be identical. Not carried by the model: the colour feature's behaviour when colours ARE supported (owo-colors styling, supports-color detection); multi-line renderings are covered by the no-panic theorems and by correspondence of the full text, not by an exact-text theorem.",
-    "technique": "Lean 4 theorems over a List Char model of fmt.rs (loop invariants for the Lines cache; str::lines for break-free strings; width = max over logical positions) + full-text correspondence over a palette of empty / multi-byte / multi-line / CRLF renderings",
+    "technique": "Lean 4: src/fmt.rs regenerated statement by statement (T15) and proved equal to the model for every matrix; theorems over the List Char model (loop invariants for the Lines cache; str::lines for break-free strings; width = max over logical positions) + full-text correspondence over a palette of empty / multi-byte / multi-line / CRLF renderings",
     "trusted": ["core::fmt width/alignment padding ({:<w$}, {:>w$}, {SPACE:w$} = at least w characters), str::lines, chars().count() modelled in Model/Fmt.lean",
                 "element Display/Debug impls are an input function (render)",
-                "colour support detection (supports-color reading NO_COLOR / the terminal) is outside the model; runs use NO_COLOR=1"],
+                "colour support detection (supports-color reading NO_COLOR / the terminal) is outside the model; runs use NO_COLOR=1",
+                "translate/t15.py and the 50-line vocabulary Model/FmtPrims.lean (size_of::<VecDeque<String>>() = 32 is measured by the harness on every run); writes to the formatter are modelled as never failing (a String sink)"],
     "assumptions": ["Coh and size <= usize::MAX (C01)"],
 }
 
@@ -165,8 +166,8 @@ PROPS["C02"] = {
 }
 
 PROPS["C16"] = {
-    "module": "Matreex.Props.C16", "harness": "C16",
-    "level_text": "PARTIAL. Machine-checked Lean 4 theorems about a split-tree model of rayon's indexed producers: for EVERY binary split tree (every thread-pool size, every division of work) par_map / par_map_ref return exactly what map returns (same CapacityOverflow cases, shape, order, contents), the indexed iterators yield exactly the sequential (index, element) items with the regenerated Index::from_flattened, the leaves partition the work, every interleaving of the leaves' calls is a permutation of the sequential call list (exactly once per element) and par_apply's final memory equals the sequential one on every interleaving; plus theorems over the table of parallel.rs wrapper forms regenerated from the source on every run. "
+    "module": "Matreex.Props.C16", "harness": "C16", "extra_modules": ["Matreex.Lemmas.BridgeT16"],
+    "level_text": "PARTIAL. The nine wrappers of src/parallel.rs are regenerated as Lean functions of the split tree on every run (T16) and proved equal, for EVERY split tree, to the regenerated sequential apply / map / map_ref and element iterators (C16.parallel_is_the_source, par_apply_source_any_schedule). Machine-checked Lean 4 theorems about a split-tree model of rayon's indexed producers: for EVERY binary split tree (every thread-pool size, every division of work) par_map / par_map_ref return exactly what map returns (same CapacityOverflow cases, shape, order, contents), the indexed iterators yield exactly the sequential (index, element) items with the regenerated Index::from_flattened, the leaves partition the work, every interleaving of the leaves' calls is a permutation of the sequential call list (exactly once per element) and par_apply's final memory equals the sequential one on every interleaving; plus theorems over the table of parallel.rs wrapper forms regenerated from the source on every run. "
                   "Tied to the implementation by runs on real rayon pools of 1..32 threads with per-element run-time jitter, shapes from empty to 100200 elements, invocation counters and the set of worker threads observed. "
                   "Not exhibited by the model: rayon itself (its scheduler, work stealing, the unsafe collect into uninitialised memory, panic propagation) — the theorems assume rayon honours the IndexedParallelIterator / Producer contract stated in Model/Par.lean; the runs sample real schedules but cannot enumerate them.",
     "technique": "Lean 4 theorems quantified over every split tree and every interleaving of the leaves about a model of rayon's indexed producers + source-extracted wrapper table + differential runs on real thread pools of 1..32 threads with run-time jitter",
